@@ -4,7 +4,7 @@
     enum values, MIDI range) are regenerated from note_seq/abc_parser.py on
     every run (Gen/G04.v). *)
 From Coq Require Import ZArith QArith List Bool.
-From NS Require Import Gen.G04 Model.Abc Proofs.AbcKeys Proofs.AbcPitch Proofs.AbcTime Proofs.AbcBook Proofs.AbcRepeat.
+From NS Require Import Gen.G04 Model.Abc Proofs.AbcKeys Proofs.AbcPitch Proofs.AbcTime Proofs.AbcBook Proofs.AbcRepeat Proofs.AbcGrammar Proofs.AbcRepeatTokens.
 Import ListNotations.
 Local Open Scope Z_scope.
 
@@ -257,3 +257,69 @@ Theorem abc_last_note_ends_at_clock : forall is s s', run_items s is = Ok s' ->
   chain (notes s) (cur s) -> chain (notes s') (cur s').
 Proof. exact run_items_chain. Qed.
 Print Assumptions abc_last_note_ends_at_clock.
+
+(** * The supported grammar as a boolean predicate on token lists, and the two
+      statements over raw token lists *)
+
+(** No tune of the grammar — header fields with positive numbers, any key the
+    regenerated tables know (in particular every key x mode spelling of
+    SIG_TO_KEYS, next theorem), notes with any accidental / octave marks / every
+    length form that is not a division by zero or the A//3 form, any bar lines,
+    broken rhythm, repeats, inline fields, and any unsupported construct — can
+    raise anything but an ABCParseError-family exception. *)
+Theorem abc_supported_grammar_no_foreign_exception : forall ls,
+  supported_tune ls = true ->
+  match parse_tune ls with Ok _ => True | Err e => foreign e = false end.
+Proof. exact supported_no_foreign. Qed.
+Print Assumptions abc_supported_grammar_no_foreign_exception.
+
+Theorem abc_table_keys_in_grammar : forall sig keys key m sp exp eacc,
+  In (sig, keys) SIG_TO_KEYS -> In key keys ->
+  mode_of_suffix (snd (key_split key)) = Some m -> In sp (spellings m) ->
+  field_ok (FK (fst (key_split key)) sp exp eacc) = true.
+Proof. exact table_keys_supported. Qed.
+Print Assumptions abc_table_keys_in_grammar.
+
+(* so the hypothesis of the isolation theorems holds for every tunebook of the grammar *)
+Theorem abc_supported_tunebook_no_foreign : forall h ts,
+  supported_tune h = true -> forallb supported_tune ts = true -> no_foreign_in h ts.
+Proof. exact supported_book_no_foreign. Qed.
+Print Assumptions abc_supported_tunebook_no_foreign.
+
+Example abc_supported_grammar_nonvacuous :
+  let n a l := TNote a l [true] (mkLen (Some 3) 1 (Some 2)) in
+  let ls := [LField (FX 1); LField (FM (MFrac 6 8)); LField (FQ (QFrac [(3, 8)] 100));
+             LField (FK [67; 98] [76; 121; 100] false [(ASharp, 102)]);       (* K:GbLyd ^f *)
+             LMusic [TBar 0 1 1; n ASharp 99; TBroken true 2; n ANone 100; TUnsup UChord; TBar 1 1 0]] in
+  supported_tune ls = true /\ parse_tune ls = Err EChord.
+Proof. vm_compute. split; reflexivity. Qed.
+Print Assumptions abc_supported_grammar_nonvacuous.
+
+(** Repeat expansion over raw token lists: for every tune of the strict grammar
+    (the grammar above, every note with a positive notated length) whose bar /
+    repeat symbols are well nested with non-empty repeated bodies (sp_items reads
+    the play counts off the token list, without any clock, and accepts it; no
+    repeat left open), if the tune parses then its section groups are exactly
+    (segment i, count c_i) in order and the model of expand_section_groups
+    succeeds and plays the sections in the notated order. *)
+Theorem abc_repeat_expansion_tokens : forall ls p t,
+  strict_tune ls = true ->
+  sp_items sp0 (flatten ls) = Some p -> opn p = None ->
+  parse_tune ls = Ok t ->
+  let counts := rev (final_segs p) in
+  t_groups t = (if anyb p then numbered 0 counts else []) /\
+  exists ns, expand t = Ok ((if anyb p then unroll counts else []), ns).
+Proof. exact repeat_expansion_tokens. Qed.
+Print Assumptions abc_repeat_expansion_tokens.
+
+(* A |: B c :| d ::: e :::|   ->   0 1 1 2 3 3 3 *)
+Example abc_repeat_expansion_tokens_nonvacuous :
+  let n l := TNote ANone l [] (mkLen None 0 None) in
+  let ls := [LField (FX 1); LField (FK [67] [] false []);
+             LMusic [n 65; TBar 0 1 1; n 66; n 99; TBar 1 1 0; n 100; TBar 0 1 2; n 101; TBar 2 1 0]] in
+  strict_tune ls = true /\
+  exists p t ns, sp_items sp0 (flatten ls) = Some p /\ opn p = None /\ anyb p = true /\
+    parse_tune ls = Ok t /\ expand t = Ok ([0; 1; 1; 2; 3; 3; 3], ns) /\
+    map n_pitch ns = [69; 71; 72; 71; 72; 74; 76; 76; 76].
+Proof. vm_compute. split; [reflexivity|]. do 3 eexists. repeat split; reflexivity. Qed.
+Print Assumptions abc_repeat_expansion_tokens_nonvacuous.
